@@ -57,7 +57,7 @@ def configs(tier):
            {'N': 4, 'Nact': 2, 'sep': 1, 'Nout': 2, 'shift': 'zero'}, {'N': 4, 'Nact': 2, 'sep': 1, 'Nout': 4, 'shift': 'sym'},
            {'N': 5, 'Nact': 3, 'sep': 1, 'Nout': 5, 'shift': 'zero'}]
     if not q:
-        dms += [{'N': 6, 'Nact': 3, 'sep': 1, 'Nout': 8, 'shift': 'sym'}, {'N': 6, 'Nact': 2, 'sep': 2, 'Nout': 4, 'shift': 'zero'}]     # the lattice must fit in the influence-function array
+        dms += [{'N': 6, 'Nact': 3, 'sep': 1, 'Nout': 8, 'shift': 'zero'}, {'N': 6, 'Nact': 2, 'sep': 2, 'Nout': 4, 'shift': 'zero'}]     # the lattice must fit in the influence-function array
     for i, d in enumerate(dms):
         out.append(dict(d, name='dm-%d-N%d-act%d-sep%d-out%d-%s' % (i, d['N'], d['Nact'], d['sep'], d['Nout'], d['shift']), kind='dm'))
     return out
